@@ -264,7 +264,11 @@ func scenario(h history, pre int) sched.Scenario {
 		}
 		return map[string]int{"crash_images_reopened_and_checked": res.checked, "object_reads_on_images": res.reads, "puts_retried_on_recovered_images": res.retries}
 	}
-	return sched.Scenario{Name: h.name, Opt: sched.Options{PreemptBound: pre, MaxSteps: 4000}, Body: body, Check: check, Outcome: outcome, Counters: counters}
+	return sched.Scenario{Name: h.name, Opt: sched.Options{PreemptBound: pre, MaxSteps: 4000}, Body: body, Check: check, Outcome: outcome, Counters: counters, Discard: func(x *sched.Exec) {
+		if res, _ := x.Result.(*result); res != nil && res.root != "" {
+			os.RemoveAll(res.root)
+		}
+	}}
 }
 
 var imagesChecked, readsChecked, retriesChecked int
